@@ -20,6 +20,6 @@ if [ "${RUN_TESTS:-0}" = "1" ]; then
   (cd "$SCR" && /venv/bin/python -m pytest -q -x -p no:cacheprovider --timeout=900 2>&1 | tail -3)
 fi
 for P in "$@"; do
-  VERIF_REPO="$SCR" "$HERE/check" "$P" --tier "${TIER:-quick}" --no-evidence 2>&1 | grep -E "^(VIOLATION|INCONCLUSIVE|SUMMARY|KNOWN)" | cut -c1-400
+  VERIF_REPLAY_DIR="$SCR/.replays" VERIF_REPO="$SCR" "$HERE/check" "$P" --tier "${TIER:-quick}" --no-evidence 2>&1 | grep -E "^(VIOLATION|INCONCLUSIVE|SUMMARY|KNOWN)" | cut -c1-400
   echo "exit=${PIPESTATUS[0]}"
 done
